@@ -4,6 +4,7 @@ import (
 	"bufio"
 	"encoding/json"
 	"fmt"
+	"math/rand"
 	"os"
 
 	"github.com/openacid/slim/trie"
@@ -109,6 +110,14 @@ func replay(in, out string) {
 		case "obsk":
 			if st != nil {
 				t.Emit(ObsEv(c, st, "k", c.Keys, nil))
+			}
+		case "obsbig":
+			pr := e["params"].(map[string]interface{})
+			var ks int64
+			fmt.Sscan(pr["kseed"].(string), &ks)
+			{ // re-emits both phases (fresh and reloaded)
+				bc, nq := bigCase(pr["kind"].(string), int(pr["nreq"].(float64)), ks, pr["prop"].(string))
+				runBigCase(t, newMeta(""), rand.New(rand.NewSource(ks+1)), bc, nq, "replay", Ev{"kind": pr["kind"], "nreq": pr["nreq"], "kseed": pr["kseed"], "prop": pr["prop"]})
 			}
 		case "calibration":
 			cal := calibrateLegacy("/repo/trie/testdata")
